@@ -15,6 +15,7 @@ THEOREM = ("Ufo2ft.C12.C12_dispatch / C12_table18 / C12_unsupported_iff / C12_re
 PROOF_FILES = ["C12", "C12Names"]
 N = {"quick": 110, "thorough": 1800}
 NAMES_SHARE = 0.4    # extra fonts built with production names, as a share of N
+QUAD_SHARE = 0.15    # extra fonts with glyphs drawn with quadratic curves, as a share of N
 RULE = ("(1) dispatch, exhaustive in both tiers: PostProcessor.process on a real TrueType / CFF / CFF2 font with recording "
         "stand-ins for cffsubr.subroutinize, compreffor.compress and convertCFFToCFF2, for ALL 3 x 8 x 5 x 5 argument tuples "
         "input table {none,CFF,CFF2} x optimizeCFF {False,True,-1,0,1,2,3,7} x cffVersion {None,0,1,2,3} x subroutinizer "
@@ -48,12 +49,26 @@ RULE = ("(1) dispatch, exhaustive in both tiers: PostProcessor.process on a real
         "combinations.  A quarter of the maps have an entry FOR '.notdef' (values nd/notdef/.notdef/''/null/another glyph's "
         "name) and 15 % an entry that asks for the name '.notdef' (plus the 'taken' pattern); the former finding's input "
         "({'.notdef': 'nd', 'A': 'B', 'B': 'A'}) is a fixed case and a corpus line. "
+        "(5) sources drawn with quadratic curves: 0.15 N (at least 6) further fonts of stream 3 in which 1-all of the "
+        "component-free glyphs get 1-3 contours made of qcurve segments (replacing or next to their line/cubic contours, so that "
+        "nested and transformed components carry them along): 'tt-ellipse' = an ellipse as a TrueType font stores it (8-24 "
+        "quadratic arcs, an explicit on-curve point every 1-4 arcs, the others implied, integer coordinates, radii 12-280, either "
+        "direction, any start point incl. off-curve), 'cu2qu' = a smooth random closed cubic outline (3-6 nodes, optionally one "
+        "straight side) passed through fontTools' Cu2QuPen(max_err=1, all_quadratic) and rounded, in the generator, 'rough' = "
+        "random line/qcurve contours with 1-3 off-curve points per segment.  The first two are smooth splines, i.e. what a "
+        "curve re-fitting step (qu2cu, simplification, ...) gated on one of the three options would change; built and compared "
+        "under the same 18 (+4) combinations (the compiler has to turn every quadratic segment into the same cubic curve - exact "
+        "degree elevation, then rounding - whatever the options are). "
         "non-trivial = at least 3 outlined glyphs and all but at most 2 combinations successful (fonts); input table present "
         "(dispatch); drawing changed (spec); the observed rename map is not idempotent or renames at least 2 glyphs (names).")
 ASSUMED = [
     "external encoders are hypotheses of C12_pipeline_draw, measured on every generated font, not proved: fontTools "
     "specializeCommands passes 4-7 + commandsToProgram, cffsubr (tx, a C++ binary), compreffor, convertCFFToCFF2 re-encode "
     "without changing what is drawn; passes 1-3 of specializeCommands ARE modelled (specTopo) and tied by correspondence",
+    "the pre-processor (OTFPreProcessor: decomposition, overlap removal, the filters) and the outline compiler's pen path "
+    "(quadratic -> cubic degree elevation in T2CharStringPen, rounding) never read the three options: not modelled - the model "
+    "takes the optimizeCFF=0 / CFF 1 drawing as its input and predicts every other combination from it - but measured on every "
+    "generated font incl. the quadratic-source stream (5)",
     "hmtx and GSUB/GPOS/GDEF are built by code that never reads the three options (modelFont copies them from the reference "
     "font); measured on every generated font",
     "fontTools.cffLib.width.optimizeWidths is an input of the width model (any pair is proved correct)",
@@ -297,6 +312,99 @@ def _font(rng, mode, prodnames=False):
     return case
 
 
+# ------------------------------------------------------------------ sources drawn with quadratic curves
+
+def _tt_ellipse(rng, cx, cy, rx, ry):
+    """an ellipse the way a TrueType font stores it: n quadratic arcs, an explicit on-curve point every k arcs
+    (the others implied), integer coordinates; smooth, so that a curve-fitting step has something to merge"""
+    import math
+    n = rng.choice([8, 12, 12, 16, 16, 24])
+    k = rng.choice([d for d in (1, 1, 2, 3, 4) if n % d == 0])
+    ph = rng.random() * 2 * math.pi
+    sec = 1 / math.cos(math.pi / n)
+    pts = []
+    for i in range(n):
+        a = ph + 2 * math.pi * i / n
+        if i % k == 0:
+            a0 = a - math.pi / n
+            pts.append([round(cx + rx * math.cos(a0)), round(cy + ry * math.sin(a0)), "qcurve"])
+        pts.append([round(cx + sec * rx * math.cos(a)), round(cy + sec * ry * math.sin(a)), None])
+    if rng.random() < 0.4:
+        pts = pts[::-1]
+    # UFO contours may start anywhere, also on an off-curve point
+    r = rng.randrange(len(pts)) if rng.random() < 0.5 else 0
+    return pts[r:] + pts[:r]
+
+
+def _cu2qu_blob(rng, cx, cy, r):
+    """a smooth closed cubic outline (star-shaped, tangent-continuous) with an optional straight cut, converted
+    with fontTools' Cu2QuPen (max_err 1, all_quadratic) and rounded - the outline of a source that started its
+    life as a TrueType font.  Done here, in the generator: the case stores the resulting qcurve points."""
+    import math
+    from fontTools.pens.cu2quPen import Cu2QuPen
+    from fontTools.pens.recordingPen import RecordingPen
+    m = rng.choice([3, 4, 4, 5, 6])
+    ph = rng.random() * 2 * math.pi
+    rad = [r * rng.uniform(0.7, 1.2) for _ in range(m)]
+    on = [(cx + rad[i] * math.cos(ph + 2 * math.pi * i / m), cy + rad[i] * math.sin(ph + 2 * math.pi * i / m)) for i in range(m)]
+    t = 0.35 * rng.uniform(0.8, 1.2)
+    tan = [((on[(i + 1) % m][0] - on[i - 1][0]) * t / 2, (on[(i + 1) % m][1] - on[i - 1][1]) * t / 2) for i in range(m)]
+    cut = rng.randrange(m) if rng.random() < 0.4 else None
+    rec = RecordingPen()
+    pen = Cu2QuPen(rec, 1.0, all_quadratic=True)
+    pen.moveTo(on[0])
+    for i in range(m):
+        j = (i + 1) % m
+        if i == cut:
+            pen.lineTo(on[j])
+        else:
+            pen.curveTo((on[i][0] + tan[i][0], on[i][1] + tan[i][1]), (on[j][0] - tan[j][0], on[j][1] - tan[j][1]), on[j])
+    pen.closePath()
+    pts = []
+    for op, args in rec.value:
+        if op == "lineTo":
+            pts.append([round(args[0][0]), round(args[0][1]), "line"])
+        elif op == "qCurveTo":
+            for q in args[:-1]:
+                pts.append([round(q[0]), round(q[1]), None])
+            pts.append([round(args[-1][0]), round(args[-1][1]), "qcurve"])
+    # the closing point of the pen protocol is the moveTo point again
+    if len(pts) > 1 and pts[-1][:2] == [round(on[0][0]), round(on[0][1])] and pts[-1][2] == "line":
+        pts.pop()
+    return pts
+
+
+def _quad_contour(rng, style):
+    cx, cy = rng.randrange(100, 500), rng.randrange(0, 600)
+    if style == "tt-ellipse":
+        big = rng.random() < 0.6
+        return _tt_ellipse(rng, cx, cy, rng.randrange(60, 280) if big else rng.randrange(12, 60),
+                           rng.randrange(60, 280) if big else rng.randrange(12, 60))
+    if style == "cu2qu":
+        return _cu2qu_blob(rng, cx, cy, rng.choice([40, 90, 150, 220, 300]))
+    from gen import contour
+    return contour(rng, ("line", "qcurve", "qcurve"), 1, 500, 0.0, offstart=True)
+
+
+def _quadratic(rng, case):
+    """turn some glyphs of a font case into glyphs drawn with quadratic curves (all contours, or next to the
+    cubic/line contours they have), so that components - nested, transformed - carry them along"""
+    styles = []
+    glyphs = case["fd"]["glyphs"]
+    cands = [g for g in glyphs if not g["components"]] or glyphs[:1]
+    rng.shuffle(cands)
+    for g in cands[:max(1, rng.choice([1, 2, 3, len(cands)]))]:
+        if rng.random() < 0.6:
+            g["contours"] = []
+        for _ in range(rng.choice([1, 1, 2, 3])):
+            st = rng.choice(["tt-ellipse", "tt-ellipse", "cu2qu", "cu2qu", "rough"])
+            g["contours"].insert(rng.randrange(len(g["contours"]) + 1), _quad_contour(rng, st))
+            styles.append(st)
+    case["quad"] = sorted(set(styles))
+    case["tol"] = rng.choice([None, None, None, 0.5])
+    return case
+
+
 _TRI = [[[0, 0, "line"], [120, 0, "line"], [60, 90, "line"]]]
 QUIRKS = [
     {"kind": "font", "lib": "ufoLib2", "degen": [], "quirk": "order-notdef-space",
@@ -355,6 +463,9 @@ def gen(rng, n, mode):
     # their inputs for a given seed)
     for _ in range(max(4, int(n * NAMES_SHARE))):
         yield _font(rng, mode, prodnames=True)
+    # sources drawn with quadratic curves (TrueType-style splines), again a separate stream at the end
+    for _ in range(max(6, int(n * QUAD_SHARE))):
+        yield _quadratic(rng, _font(rng, mode))
 
 
 # ------------------------------------------------------------------ running the implementation
@@ -642,8 +753,11 @@ def _run_font(case):
     tags = [case["lib"]] + ["degen:" + d for d in case.get("degen", [])]
     if case.get("quirk"):
         tags.append("quirk:" + case["quirk"])
-    elif not case.get("degen") and not nm:
+    elif not case.get("degen") and not nm and not case.get("quad"):
         tags.append("plain")
+    tags += ["quadratic:" + q for q in case.get("quad", [])]
+    if any(p[2] == "qcurve" for g in fd["glyphs"] for c in g["contours"] for p in c):
+        tags.append("has-qcurve")
     if nm:
         tags.append("production-names")
     draws, results = [], []
@@ -962,8 +1076,14 @@ LEVEL_TEXT = ("Proved for all inputs (Lean): the dispatcher of PostProcessor.pro
               "production names, for every glyph order that starts with '.notdef', with no side condition on the map "
               "(C12_cff1_writable, C12_same_named). Tied to the code by an exhaustive run of the dispatcher and by "
               "compiling random fonts under all 18 (+4) combinations with the real cffsubr/compreffor/CFF2 converter, with and "
-              "without production names.")
-LEVEL_NOTE = ("The external encoders (specialiser passes 4-7, cffsubr, compreffor, CFF->CFF2) are hypotheses of the rendering theorem, "
+              "without production names, from line/cubic sources and from sources drawn with TrueType-style quadratic splines.")
+LEVEL_NOTE = ("Sources with quadratic curves (stream 5) are covered by observation only: nothing in the Lean model describes how a "
+              "qcurve segment becomes a curveTo (BasePen/T2CharStringPen, fontTools) or that the pre-processor's filter list is "
+              "independent of optimizeCFF; the declarative predicate holdsSame (all supported combinations carry the same "
+              "drawings, advances and layout) is evaluated by the Lean driver on the observed fonts, and the model's prediction "
+              "(specTopo of the optimizeCFF=0 drawing) must agree, so an option-dependent re-fitting of the outlines is a failing "
+              "input that the known specialiser finding cannot absorb (classify_failure requires model = observation). "
+              "The external encoders (specialiser passes 4-7, cffsubr, compreffor, CFF->CFF2) are hypotheses of the rendering theorem, "
               "measured on every generated font and never proved. Known finding: with optimizeCFF >= 1 the specialiser deletes "
               "zero-length lines, merges same-axis line runs, demotes curves with retracted handles and merges consecutive movetos, so "
               "the drawing-operation sequence differs from optimizeCFF = 0 on such glyphs (same filled shape); the check recognises "
